@@ -141,6 +141,13 @@ func hookVal(v interface{}) interface{} {
 	}
 }
 
+func (r *Recorder) delaysExplicit(ev string) (float64, bool) {
+	r.mu.Lock()
+	defer r.mu.Unlock()
+	p, ok := r.delays[ev]
+	return p, ok
+}
+
 // Sink is installed with jsonrpc.VerifSetSink.
 func (r *Recorder) Sink(conn int, role string, ev string, kv []interface{}) {
 	// gates first (pre points park here), then perturbation, then the record
@@ -182,7 +189,8 @@ func (r *Recorder) Sink(conn int, role string, ev string, kv []interface{}) {
 		}
 		<-g
 	}
-	if p > 0 && !strings.HasPrefix(ev, "wl.") {
+	_, explicit := r.delaysExplicit(ev)
+	if p > 0 && (explicit || !strings.HasPrefix(ev, "wl.")) {
 		r.rngMu.Lock()
 		hit := r.rng.Float64() < p
 		d := time.Duration(r.rng.Int63n(int64(r.maxD) + 1))
@@ -199,6 +207,10 @@ func (r *Recorder) Sink(conn int, role string, ev string, kv []interface{}) {
 		return
 	}
 	e := Ev{"ev": "h:" + ev, "conn": conn, "role": role}
+	if ev == "wl.enter" {
+		// exact under the lock discipline: whoever is inside a write section must be holding writeLk
+		e["locked"] = jsonrpc.VerifWriteLocked(conn)
+	}
 	for i := 0; i+1 < len(kv); i += 2 {
 		k, _ := kv[i].(string)
 		if k == "id" {
